@@ -438,6 +438,20 @@ def run_property(mod, tier, seed, replay=None, budget_s=None):
         what = next((k["what"] for k in known if k["id"] == kid), f["text"])
         out_lines.insert(0, f"KNOWN-FINDING: property={pid} {kid} {what}")
 
+    # ---- provenance of the code the correspondence ran against
+    prov = {}
+    try:
+        prov["repo"] = REPO
+        prov["repo_head"] = sh(["git", "-C", REPO, "rev-parse", "HEAD"])[1].strip()
+        prov["repo_modified_files"] = [l[3:] for l in sh(["git", "-C", REPO, "status", "--porcelain"])[1].splitlines() if l.strip()][:20]
+        for line in open(os.path.join(VERIF, "properties.jsonl")):
+            pr = json.loads(line)
+            if pr["id"] == pid:
+                prov["anchor_sha256"] = {f: hashlib.sha256(open(os.path.join(REPO, f), "rb").read()).hexdigest()[:16]
+                                         for f in pr["anchors"]["files"] if os.path.exists(os.path.join(REPO, f))}
+    except Exception as e:  # provenance is informational only
+        prov["error"] = str(e)
+
     # ---- evidence
     samples = []
     for case, obs, reqs in records[:3] + records[-2:]:
@@ -466,6 +480,7 @@ def run_property(mod, tier, seed, replay=None, budget_s=None):
             exhaustive=False,
             leanchecker=audit.get("leanchecker", "not run (thorough tier only)"),
             lean_s=audit["lean_s"],
+            code_under_test=prov,
         ),
         assumptions=list(getattr(mod, "ASSUMPTIONS", [])),
         wall_s=round(time.time() - t0, 2),
